@@ -124,3 +124,53 @@ def run(ck):
         if len(ck.samples) < 3 and head == "agree" and vmap:
             ck.samples.append({"values": vmap, "wgsl": unq(s[1:-1])[:500], "result": m[:200]})
     ck.extra["results_per_generator_class"] = tally
+    # ---- the back ends' own pipeline-constant options: the emitted text, executed by the target-language interpreter
+    rc = os.path.join(out, "route-cases.txt")
+    if os.path.exists(rc):
+        lines = common.read_lines(rc)
+        # routeerr lines are answered here; the rest go to the csem driver
+        sem_in = os.path.join(out, "route-sem.txt")
+        open(sem_in, "w").write("".join(l + "\n" for l in lines if l.startswith("(csem ")))
+        res_sem = []
+        if ck.run_driver(["csem"], sem_in, os.path.join(out, "route-model.txt")):
+            res_sem = common.read_lines(os.path.join(out, "route-model.txt"))
+        rtags = common.read_lines(os.path.join(out, "route-tags.txt"))
+        rsrcs = common.read_lines(os.path.join(out, "route-src.txt"))
+        rtexts = common.read_lines(os.path.join(out, "route-text.txt"))
+        rt = {}
+        k = 0
+        for l, t, s, tx in zip(lines, rtags, rsrcs, rtexts):
+            route = t.split(" ")[0]
+            knob = t.split(" ")[1]
+            ck.case(route + s + t, nontrivial=True)
+            if l.startswith("(routeerr "):
+                r = "ERROR " + unq(l[len("(routeerr "):-1].strip('"'))
+            else:
+                r = res_sem[k] if k < len(res_sem) else "driver-missing"
+                k += 1
+            head = r.split(" ")[0]
+            rt.setdefault(route, {}).setdefault(head, 0)
+            rt[route][head] += 1
+            if head in ("agree", "skip", "excluded"):
+                continue
+            cls = "values"
+            if head == "ERROR":
+                cls = "error: " + re.sub(r"[0-9]+", "N", r[6:])[:100]
+            elif "-error[" in r:
+                cls = re.sub(r"[0-9]+", "N", r[r.index("-error[") + 7:])[:100]
+            fid = None
+            for kf in ck.known:
+                mt = kf.get("match", {})
+                if mt.get("kind") == "pipeline-constant-route-differs" and mt.get("route") == route and re.search(mt.get("class_regex", ".*"), cls) \
+                        and re.search(mt.get("source_regex", ""), unq(s[1:-1])):
+                    fid = kf["id"]
+            key = ("route", route, cls)
+            if fid is None and key in reported:
+                continue
+            if fid is None:
+                reported.add(key)
+            ck.violation({"kind": "pipeline-constant-route-differs", "finding": fid, "route": route, "class": cls, "generator_class": knob,
+                          "values": " ".join(t.split(" ")[3:]), "result": r[:1500], "wgsl": unq(s[1:-1]), "emitted": unq(tx[1:-1])[:5000],
+                          "how": "the text written by the back end under its own PipelineConstants option, executed by the target-language "
+                                 "interpreter, differs from the WGSL program with the overrides substituted"}, found_input=True)
+        ck.extra["pipeline_constant_routes"] = rt
